@@ -18,6 +18,22 @@ CLAIMED = {
              "every trace is replayed through the model in Coq and must be accepted with equal observables.",
         design="DESIGN.md §5 C01",
         technique="Coq invariant proof over an executable LTS + exhaustive trace correspondence (vm_compute replay)"),
+    "C04": dict(
+        text="Release/acquire view machine (lib/RA.v) with three protocol models proved race free for EVERY execution of the machine "
+             "(not only sequentially consistent ones): the callback word (Set/attach/Ready/Get, unique and shared observers), the "
+             "reference/event counter for any number of holders (last decrement frees after all accesses, destroyed at most once), "
+             "and ownership transfer through any hand-off word for any number of threads (Strand inbox, OneShotEvent head, coroutine "
+             "Mutex sender word, Spinlock, SharedMutex state, When flags), each under side conditions on memory orders that are shown "
+             "necessary by racy witness executions. The orders and the operation skeleton are regenerated from the source on every run "
+             "by a translator, and the theorems instantiate the side conditions on the generated file, so a weakened order or a moved "
+             "atomic operation breaks a proof obligation. Search for a concrete failing run: necessity witnesses re-evaluated under the "
+             "current orders, and 11 multi-threaded client programs on real threads under ThreadSanitizer.",
+        design="DESIGN.md §5 C04",
+        technique="Coq proofs in a release/acquire view machine over memory orders translated from the source + TSan search",
+        note="Trusted: Coq kernel + vm_compute; the lexical translator tools/translate_orders.py; the RA machine is promise-free (no "
+             "load buffering), stores append to the modification order; the ownership discipline given to RAOwn comes from the SC "
+             "protocol models; hardware/compiler behaviour is not observed; TSan is used only to look for a failing run. Partial: "
+             "covers the hand-off words named in the property's anchors, not arbitrary client programs over the whole API."),
 }
 
 PENDING = {}
